@@ -2,6 +2,8 @@ import CelmaVerif.Lemmas.Spelling
 import CelmaVerif.Lemmas.RulesComplete
 import CelmaVerif.Lemmas.RulesDest
 import CelmaVerif.Lemmas.RulesLevel
+import CelmaVerif.Lemmas.ParseSmall
+import CelmaVerif.Lemmas.ParseProps
 /-
   C01 — command-line values reach their typed destinations, whatever the spelling.
 
@@ -10,14 +12,19 @@ import CelmaVerif.Lemmas.RulesLevel
   reading of the declared rules; `denote` (Lemmas/RulesDest.lean) is the closed form of a
   destination in terms of the argument's own uses.
 
-  STAGE / partial: `Spells` covers `-c`, `--name` (exact or any abbreviation that resolves), `-c v`,
-  `--name v`, `--name=v`, `-cv`, flags grouped behind one dash (`-abc`), also closed by a
-  value-taking key (`-abk v`, `-abkv`), value-less uses of optional-value arguments (`-v`,
-  `--verbose` for a LevelCounter, when no value follows) and free values behind a multi-value
-  argument — every form the property lists.  Not in `Spells` (modelled and covered by the
-  differential run only): the `--` separator in front of dash-leading values, and control
-  characters; the theorems that depend on `Spells` keep the suffix `_partial` for that reason and
-  because the destinations are those of the modelled fragment.  Floating-point destinations are outside the modelled fragment.
+  Two grammars.  `Spells` (13 constructors, one per surface form the property lists: `-c`, `--name`
+  exact or any abbreviation that resolves — declaratively: `C01_abbrev_resolves` —, `-c v`,
+  `--name v`, `--name=v`, `-cv`, flags grouped behind one dash `-abc`, also closed by a value-taking
+  key `-abk v` / `-abkv`, value-less uses of optional-value arguments, free values behind a
+  multi-value argument).  `SpellsPlus` (Lemmas/ParseGrammar.lean; contains `Spells`:
+  `C02b.C02_grammar_extends_spells`) adds everything else the handler accepts: the separator `--` in
+  front of dash-leading values, `!` (only when no use follows), values of the positional argument,
+  `--flag=value`, a dash inside a group of short keys.  The theorems over `Spells` keep their names; the
+  `…_words_partial` theorems state the same over `SpellsPlus`, i.e. for EVERY accepted form
+  (`C02b.C02_parse_faithful`: every accepted argument vector has a `SpellsPlus` derivation).
+  What keeps the suffix `_partial`: the destinations are those of the modelled fragment
+  (flag/int/string/LevelCounter/vector<int>; floating-point, optional<>, other containers absent), no
+  argument file / environment source, no sub-groups, bracket handlers or inversion support.
 -/
 namespace CelmaVerif.Props.C01
 open CelmaVerif CelmaVerif.ProgArgs CelmaVerif.Keys
@@ -71,7 +78,11 @@ theorem C01_exact_keys_resolve (cfg : Cfg) (hd : Keys.Disjoint cfg.table) (i : N
   · intro hl
     exact resolves_exact cfg hd i d hi ⟨none, d.key.long⟩ (Or.inl rfl) (Or.inr (Or.inl ⟨hl, rfl⟩))
 
-/-- **Unused destinations keep their value**: an argument without a use has `denote … [] = init`. -/
+/-- Definitional lemma (`rfl`): `denote` of no values is the initial value.  The CLAUSE "unused
+    destinations keep their value" is not this lemma but the conclusion of
+    `C01_values_reach_destinations_partial` / `…_words_partial` for an argument `i` without a use
+    (`valsOf i us = []`): its destination after the evaluation is `denote d init [] = init`;
+    stated on its own as `C01_unused_destination_kept`. -/
 theorem C01_unused_keep (d : ArgDef) (init : DVal) : denote d init [] = init := rfl
 
 /-- **Order independence**: two accepted abstract command lines that give every argument the same
@@ -85,9 +96,10 @@ theorem C01_order_independent (cfg : Cfg) (inits : List DVal) (hin : cfg.args.le
     ∃ st st', h.args[i]? = some st ∧ h'.args[i]? = some st' ∧ st.dest = st'.dest :=
   dests_order_independent hin e e' hsame hi hv ht
 
-/-- **Nothing but the uses reaches the destinations** (converse direction, every argv, every form the
-    handler accepts — also the ones not in `Spells`): an accepted command line is the abstract
-    evaluation of the uses it logged. -/
+/-- **An accepted run is the abstract evaluation of its use LOG** (every argv, every form the handler
+    accepts).  The conclusion is about `hf.uses`, the ghost log the model writes in `assignValue`; on
+    its own it does not relate that log to the words of `argv`.  The statement over the words is
+    `C01_accepted_is_what_the_words_spell` below. -/
 theorem C01_accepted_is_its_uses (cfg : Cfg) (h0 hf : HState) (argv : List Word) (hi : h0.inverted = false)
     (he : evalArguments cfg h0 {} argv = .ok hf) :
     ∃ us, hf.uses = h0.uses ++ us ∧ ∃ g, evalUses cfg h0 us = .ok g ∧ g.Same hf :=
@@ -130,5 +142,199 @@ example : Spells { args := [fArg, { fArg with key := ⟨some 'g', []⟩ }] } non
 open Ex in
 example : show_ (evalUses cfg (cfg.initState inits) [⟨0, "7".toList, true⟩, ⟨1, [], true⟩])
     = some [.int 7, .flag true] := by decide
+
+/-! ### abbreviations: the `Resolves` side condition, declaratively -/
+
+/-- **Unambiguous abbreviations resolve** (the `Resolves` side condition of `Spells` for abbreviated
+    long keys, stated over the argument list and not over the result of the lookup): abbreviations
+    are allowed; `name` is a non-empty word; no argument has exactly the long key `name`; the long
+    key of the argument at position `i` starts with `name`; and no argument at any other position
+    has a long key that starts with `name`.  Then the word `name`, looked up as the long key
+    `⟨none, name⟩` (what `--name` is looked up with: `C01_typed_name_key`), designates argument `i` —
+    whatever else is defined, in any definition order.  (Composition of the prefix clause of C05,
+    `C05_prefix`, with the index returned by the lookup.) -/
+theorem C01_abbrev_resolves (cfg : Cfg) (habbr : cfg.abbr = true) (i : Nat) (d : ArgDef)
+    (hi : cfg.args[i]? = some d) (name : Word) (hne : name ≠ [])
+    (hexact : ∀ e ∈ cfg.args, e.key.long ≠ name)
+    (hpre : name <+: d.key.long)
+    (huniq : ∀ j (hj : j < cfg.args.length), name <+: (cfg.args[j]).key.long → j = i) :
+    Resolves cfg ⟨none, name⟩ i d := by
+  apply resolves_abbrev cfg habbr i d hi name hne hexact hpre
+  intro j e hj hp
+  obtain ⟨hjl, hje⟩ := List.getElem?_eq_some_iff.mp hj
+  exact huniq j hjl (by rw [hje]; exact hp)
+
+/-- **The word behind `--` is looked up as a long key**: a typed name of two or more characters that
+    does not begin with a dash and contains neither blank nor comma is the lookup key `⟨none, name⟩`
+    (the `Key.parse name = .ok k` side condition of the `long…` constructors of `Spells`). -/
+theorem C01_typed_name_key (name : Word) (h2 : 2 ≤ name.length) (hd : name.head? ≠ some '-')
+    (hs : ' ' ∉ name) (hc : ',' ∉ name) : Key.parse name = .ok ⟨none, name⟩ :=
+  parse_typed_name name h2 hd hs hc
+
+/-- non-vacuity of `C01_abbrev_resolves`: in `RulesExample.cfg` (long keys `verbose`, `num`, `out`,
+    `quiet`, `list`) the typed word `--verb` designates argument 0, `--verbose`; every hypothesis is
+    checked by evaluation -/
+example : Resolves RulesExample.cfg ⟨none, "verb".toList⟩ 0 RulesExample.cfg.args[0] :=
+  C01_abbrev_resolves RulesExample.cfg (by rfl) 0 _ (by rfl) "verb".toList (by decide) (by decide) (by decide)
+    (by decide)
+
+/-- … and `verb` is the key that `--verb` is looked up with -/
+example : Key.parse "verb".toList = .ok ⟨none, "verb".toList⟩ :=
+  C01_typed_name_key _ (by decide) (by decide) (by decide) (by decide)
+
+/-- the uniqueness hypothesis is needed: with a second long key `verbatim` the word `verb` is
+    ambiguous and is refused, while `verbo` still resolves -/
+example :
+    let c : Cfg := { args := [{ key := ⟨none, "verbose".toList⟩, kind := .flag, vmode := .none, card := .unlimited },
+                              { key := ⟨none, "verbatim".toList⟩, kind := .flag, vmode := .none, card := .unlimited }] }
+    findArg c.abbr c.table ⟨none, "verb".toList⟩ = .throw .runtime_error ∧
+    Resolves c ⟨none, "verbo".toList⟩ 0 c.args[0] := by
+  refine ⟨by rfl, ?_⟩
+  exact C01_abbrev_resolves _ (by rfl) 0 _ (by rfl) "verbo".toList (by decide) (by decide) (by decide) (by decide)
+
+/-! ### joint non-vacuity: all hypotheses of `C01_values_reach_destinations_partial` at once
+
+  `RulesExample.cfg`: `-v,--verbose` (flag); `-n,--num` (int, mandatory, at most once, 0 ≤ value < 10);
+  `-o,--out` (string, requires `-n`); `-q,--quiet` (flag, excludes `--verbose`); `-l,--list` (list of
+  int, 1 to 3 values, each ≥ 0); handler constraint one-of( `-v`, `-q`).  The command line
+  `-q -o file --nu=5 -l 1,2` (`jointWords`) spells the uses `-q`, `-o file`, `-n 5`, `-l 1,2`
+  (`jointUses`): a constraint-bearing argument (`-q`, `-o`), an abbreviation (`--nu`), a list. -/
+
+open CelmaVerif.ProgArgs.RulesExample in
+/-- every hypothesis of the theorem holds for this configuration and this line -/
+example : RulesExample.cfg.WellFormed ∧ RulesExample.cfg.args.length ≤ RulesExample.inits.length ∧
+    Spells RulesExample.cfg none jointUses jointWords ∧ Obeys RulesExample.cfg RulesExample.inits jointUses ∧
+    (∀ u ∈ jointUses, ∀ d, RulesExample.cfg.args[u.arg]? = some d → d.deprecated = false) ∧
+    (∀ (i : Nat) (d : ArgDef) (v : DVal), RulesExample.cfg.args[i]? = some d → d.kind = .level →
+      RulesExample.inits[i]? = some v → LevelValuesOk d (levelOf v) false false (valsOf i jointUses)) :=
+  ⟨cfg_wf, by decide, joint_spells, joint_obeys, joint_notDeprecated, joint_levels⟩
+
+open CelmaVerif.ProgArgs.RulesExample in
+/-- … the abbreviation in it resolves by the declarative theorem, not only by evaluation -/
+example : Resolves RulesExample.cfg ⟨none, "nu".toList⟩ 1 RulesExample.cfg.args[1] :=
+  C01_abbrev_resolves RulesExample.cfg (by rfl) 1 _ (by rfl) "nu".toList (by decide) (by decide) (by decide)
+    (by decide)
+
+open CelmaVerif.ProgArgs.RulesExample in
+/-- … and so the theorem applies: `prog -q -o file --nu=5 -l 1,2` is accepted and every destination
+    holds `denote` of its values -/
+example : ∃ hf, evalArguments RulesExample.cfg (RulesExample.cfg.initState RulesExample.inits) {}
+        ("prog".toList :: jointWords) = .ok hf ∧
+      ∀ (i : Nat) (d : ArgDef) (v : DVal), RulesExample.cfg.args[i]? = some d → RulesExample.inits[i]? = some v →
+        (d.kind = .vecInt → ∃ l, v = .vec l) →
+        ∃ st, hf.args[i]? = some st ∧ st.dest = denote d v (valsOf i jointUses) :=
+  C01_values_reach_destinations_partial RulesExample.cfg cfg_wf RulesExample.inits (by decide) jointUses jointWords
+    "prog".toList joint_spells joint_obeys joint_notDeprecated joint_levels
+
+open CelmaVerif.ProgArgs.RulesExample in
+/-- … which are: `--num` = 5, `--list` = [1, 2], `--out` = "file", `--quiet` set, `--verbose` (unused)
+    as it was -/
+example : denote RulesExample.cfg.args[1] (.int 0) (valsOf 1 jointUses) = .int 5 ∧
+    denote RulesExample.cfg.args[4] (.vec []) (valsOf 4 jointUses) = .vec [1, 2] ∧
+    denote RulesExample.cfg.args[2] (.str []) (valsOf 2 jointUses) = .str "file".toList ∧
+    denote RulesExample.cfg.args[3] (.flag false) (valsOf 3 jointUses) = .flag true ∧
+    denote RulesExample.cfg.args[0] (.flag false) (valsOf 0 jointUses) = .flag false := by decide
+
+open CelmaVerif.ProgArgs.RulesExample in
+/-- the `levels` hypothesis instantiated non-trivially: `RulesExample.cfgLevel` (one LevelCounter
+    `-v`), the line `-v -v`; `LevelValuesOk` holds for its two increments (`level_levels`), the line
+    is accepted and the level is 2 -/
+example : (∃ hf, evalArguments cfgLevel (cfgLevel.initState [.level 0]) {} ("prog".toList :: levelWords) = .ok hf ∧
+      ∀ (i : Nat) (d : ArgDef) (v : DVal), cfgLevel.args[i]? = some d → [DVal.level 0][i]? = some v →
+        (d.kind = .vecInt → ∃ l, v = .vec l) →
+        ∃ st, hf.args[i]? = some st ∧ st.dest = denote d v (valsOf i levelUses)) ∧
+    LevelValuesOk cfgLevel.args[0] 0 false false (valsOf 0 levelUses) ∧
+    denote cfgLevel.args[0] (.level 0) (valsOf 0 levelUses) = .level 2 :=
+  ⟨C01_values_reach_destinations_partial cfgLevel cfgLevel_wf [.level 0] (by decide) levelUses levelWords
+    "prog".toList level_spells level_obeys level_notDeprecated level_levels,
+   level_levels 0 _ _ rfl rfl rfl, by decide⟩
+
+/-! ### the same for every form the handler accepts (`SpellsPlus`) -/
+
+/-- **Nothing but what the words spell reaches the destinations** (converse direction, every argument
+    vector): if `prog :: ws` is accepted, then the words spell — in the declarative grammar
+    `SpellsPlus` — an abstract command line `us` whose abstract evaluation returns normally with the
+    same argument states (destinations, counters), constraint list and constraint states as the real
+    run; `us` is the logged use list. -/
+theorem C01_accepted_is_what_the_words_spell (cfg : Cfg) (inits : List DVal) (prog : Word) (ws : List Word)
+    (hf : HState) (he : evalArguments cfg (cfg.initState inits) {} (prog :: ws) = .ok hf) :
+    ∃ us, SpellsPlus cfg us ws ∧ hf.uses = us ∧ ∃ g, evalUses cfg (cfg.initState inits) us = .ok g ∧ g.Same hf := by
+  obtain ⟨us, sp, hu⟩ := parse_faithful cfg (cfg.initState inits) hf prog ws rfl rfl he
+  have hus : hf.uses = us := by rw [hu]; rfl
+  have hs := spellsPlus_eval cfg (cfg.initState inits) prog rfl rfl sp
+  rw [he] at hs
+  obtain ⟨g, hg, hsame⟩ := hs.ok_left
+  exact ⟨us, sp, hus, g, hg, hsame.symm⟩
+
+/-- **Spelling invariance, every accepted form.**  Two argument vectors that spell the same abstract
+    command line in `SpellsPlus` — any forms, also `--`, positional values, `!` — are evaluated alike:
+    both throw the same exception, or both return states with the same destinations, counters,
+    constraint list, constraint states and use log (`HState.Same`; the two states may differ in the
+    handler's "last argument" marker and inversion flag, which no later operation of a finished
+    evaluation reads). -/
+theorem C01_spelling_invariance_words_partial (cfg : Cfg) (h : HState) (hl : h.lastArg = none)
+    (hi : h.inverted = false) (us : List Use) (ws₁ ws₂ : List Word) (prog₁ prog₂ : Word)
+    (s1 : SpellsPlus cfg us ws₁) (s2 : SpellsPlus cfg us ws₂) :
+    ResSame (evalArguments cfg h {} (prog₁ :: ws₁)) (evalArguments cfg h {} (prog₂ :: ws₂)) :=
+  (spellsPlus_eval cfg h prog₁ hl hi s1).trans (spellsPlus_eval cfg h prog₂ hl hi s2).symm
+
+/-- **Values reach their destinations, every accepted form**: `C01_values_reach_destinations_partial`
+    with `SpellsPlus` in place of `Spells`. -/
+theorem C01_values_reach_destinations_words_partial (cfg : Cfg) (wf : cfg.WellFormed) (inits : List DVal)
+    (hin : cfg.args.length ≤ inits.length) (us : List Use) (ws : List Word) (prog : Word)
+    (sp : SpellsPlus cfg us ws) (ob : Obeys cfg inits us)
+    (notDeprecated : ∀ u ∈ us, ∀ d, cfg.args[u.arg]? = some d → d.deprecated = false)
+    (levels : ∀ (i : Nat) (d : ArgDef) (v : DVal), cfg.args[i]? = some d → d.kind = .level →
+      inits[i]? = some v → LevelValuesOk d (levelOf v) false false (valsOf i us)) :
+    ∃ hf, evalArguments cfg (cfg.initState inits) {} (prog :: ws) = .ok hf ∧
+      ∀ (i : Nat) (d : ArgDef) (v : DVal), cfg.args[i]? = some d → inits[i]? = some v →
+        (d.kind = .vecInt → ∃ l, v = .vec l) →
+        ∃ st, hf.args[i]? = some st ∧ st.dest = denote d v (valsOf i us) := by
+  obtain ⟨g, he⟩ := rules_complete wf hin ob notDeprecated levels
+  have hs := spellsPlus_eval cfg (cfg.initState inits) prog rfl rfl sp
+  rw [he] at hs
+  obtain ⟨hf, hok, hsame⟩ := hs.ok_right
+  refine ⟨hf, hok, ?_⟩
+  intro i d v hi hv ht
+  rw [hsame.args]
+  exact dests_denote hin he hi hv ht
+
+/-- **Unused destinations keep their value** (the clause, not the `rfl` lemma): after an accepted
+    evaluation of words that spell `us`, the destination of an argument that `us` does not use holds its
+    initial value. -/
+theorem C01_unused_destination_kept (cfg : Cfg) (wf : cfg.WellFormed) (inits : List DVal)
+    (hin : cfg.args.length ≤ inits.length) (us : List Use) (ws : List Word) (prog : Word)
+    (sp : SpellsPlus cfg us ws) (ob : Obeys cfg inits us)
+    (notDeprecated : ∀ u ∈ us, ∀ d, cfg.args[u.arg]? = some d → d.deprecated = false)
+    (levels : ∀ (i : Nat) (d : ArgDef) (v : DVal), cfg.args[i]? = some d → d.kind = .level →
+      inits[i]? = some v → LevelValuesOk d (levelOf v) false false (valsOf i us))
+    (i : Nat) (d : ArgDef) (v : DVal) (hi : cfg.args[i]? = some d) (hv : inits[i]? = some v)
+    (ht : d.kind = .vecInt → ∃ l, v = .vec l) (hunused : valsOf i us = []) :
+    ∃ hf st, evalArguments cfg (cfg.initState inits) {} (prog :: ws) = .ok hf ∧ hf.args[i]? = some st ∧ st.dest = v := by
+  obtain ⟨hf, he, hd⟩ := C01_values_reach_destinations_words_partial cfg wf inits hin us ws prog sp ob notDeprecated levels
+  obtain ⟨st, h1, h2⟩ := hd i d v hi hv ht
+  rw [hunused] at h2
+  exact ⟨hf, st, he, h1, h2⟩
+
+/-- non-vacuity: `-q -n -- 5` (separator form, not in `Spells`) spells `[quiet, num 5]` in `SpellsPlus`:
+    obtained from the accepted run by `C01_accepted_is_what_the_words_spell` -/
+example : ∃ us, SpellsPlus RulesExample.cfg us ["-q".toList, "-n".toList, "--".toList, "5".toList] ∧
+    ∃ g, evalUses RulesExample.cfg (RulesExample.cfg.initState RulesExample.inits) us = .ok g := by
+  cases e : evalArguments RulesExample.cfg (RulesExample.cfg.initState RulesExample.inits) {}
+      ["p".toList, "-q".toList, "-n".toList, "--".toList, "5".toList] with
+  | ok hf =>
+    obtain ⟨us, h1, _, g, h2, _⟩ := C01_accepted_is_what_the_words_spell _ _ _ _ hf e
+    exact ⟨us, h1, g, h2⟩
+  | throw x =>
+    exact absurd (show (evalArguments RulesExample.cfg (RulesExample.cfg.initState RulesExample.inits) {}
+      ["p".toList, "-q".toList, "-n".toList, "--".toList, "5".toList]).isOk = true by decide +kernel) (by rw [e]; simp [Res.isOk])
+  | oob x =>
+    exact absurd (show (evalArguments RulesExample.cfg (RulesExample.cfg.initState RulesExample.inits) {}
+      ["p".toList, "-q".toList, "-n".toList, "--".toList, "5".toList]).isOk = true by decide +kernel) (by rw [e]; simp [Res.isOk])
+
+/-- … and the joint example above (`Spells`) is a `SpellsPlus` derivation too, so the `…_words_partial`
+    theorems apply to it -/
+example : SpellsPlus RulesExample.cfg RulesExample.jointUses RulesExample.jointWords :=
+  spells_sub_spellsPlus RulesExample.joint_spells
 
 end CelmaVerif.Props.C01
